@@ -11,7 +11,7 @@ namespace Bardic.Parser
 /-! ## `strip_directive_comments` -/
 
 def commentable : List String :=
-  ["@endif", "@endfor", "@endpy", "@py", "@else", "@join", "@hook ", "@unhook ", "@start ", "->", ">>"]
+  ["@endif", "@endfor", "@endpy", "@py", "@else", "@join", "@hook ", "@unhook ", "@start ", "@metadata", "->", ">>"]
 
 def stripDirectiveCommentsGo : List Line → Option String → List Line → List Line
   | [], _, acc => acc.reverse
@@ -144,7 +144,7 @@ def coreLoop (O : PyOracle) (lines : Lines) : Nat → Nat → PSt → PM PSt
         match ({ s with inImports := false } : PSt) with
         | s =>
         if strEq st "@metadata" then coreLoop O lines f (i + 1) { s with inMeta := true }
-        else if s.inMeta && st.isEmpty then coreLoop O lines f (i + 1) s
+        else if s.inMeta && (st.isEmpty || sw st "#") then coreLoop O lines f (i + 1) s
         else if s.inMeta && (sw line " " || sw line "\t") && st.contains ':' then
           match splitColon st with
           | some (k, v) => coreLoop O lines f (i + 1) { s with metadata := dictSet s.metadata (stripL k) (stripL v) }
@@ -263,6 +263,7 @@ def validateCall (O : PyOracle) (passages : List (Line × PPassage)) (target arg
         match O.call args with
         | .miss => .error (.oracleMiss args)
         | .syntaxError => synErrNoLoc "Malformed arguments"
+        | .star => synErrNoLoc "argument unpacking is not supported"
         | .shape npos kws =>
           let names := params.filterMap (fun p => jGetStr p "name")
           let required := params.filterMap (fun p =>
